@@ -45,6 +45,10 @@ def scenarios(tier):
     for ai in (0, 2, 3, 4, 6):
         for times in (1, 2):
             S.append(dict(kind="paired", ai=ai, times=times))
+    # adapters for one side only: the other side's list must stay empty
+    for ai in (0, 2, 3, 6):
+        for sides in ("r1", "r2"):
+            S.append(dict(kind="paired", ai=ai, times=2 if ai == 2 else 1, sides=sides))
     for part in range(4):
         S.append(dict(kind="pair-adapters", part=part))
     for part in range(12):
@@ -107,6 +111,10 @@ def json_end(e):
 
 
 def compare(V, case, jadapters, T, check_rc):
+    reported = {ja["name"] for ja in jadapters}
+    for name, t in T.items():
+        if name not in reported:
+            V.append(("json-missing", f"adapter {name} was given for this read but the report has no statistics for it here", case))
     for ja in jadapters:
         name = ja["name"]
         t = T.get(name)
@@ -234,8 +242,12 @@ def do_paired(sc, wd, res):
     clih.write_text(p2, clih.fastq_text(r2))
     js = os.path.join(wd, "r.json")
     argv = ["-e", repr(RATE), "-O", "4", "--times", str(sc["times"])]
+    sides = sc.get("sides", "both")
     for f, s in adset:
-        argv += [f, s, up[f], s.replace("=", "x=", 1)]
+        if sides in ("both", "r1"):
+            argv += [f, s]
+        if sides in ("both", "r2"):
+            argv += [up[f], s.replace("=", "x=", 1)]
     r = clih.run_cli(argv + ["--json", js, "-o", os.path.join(wd, "o1.fq"), "-p", os.path.join(wd, "o2.fq"), p1, p2])
     res["runs"] += 1
     case = dict(scenario=sc, argv=argv)
@@ -244,6 +256,10 @@ def do_paired(sc, wd, res):
         return
     j = clih.read_json(js)
     for mate, path, key, suffix in ((1, p1, "adapters_read1", ""), (2, p2, "adapters_read2", "x")):
+        if sides != "both" and sides != f"r{mate}":
+            if j.get(key):
+                V.append(("json-side", f"no adapter was given for read {mate} but {key} lists {[a['name'] for a in j[key]]}", dict(case, mate=mate)))
+            continue
         infop = os.path.join(wd, "info.tsv")
         a = ["-e", repr(RATE), "-O", "4", "--times", str(sc["times"])]
         for f, s in adset:
